@@ -54,6 +54,10 @@ class Context:
         self.fields_and_fragments = fields_and_fragments
         self.compared_fragment_pairs = compared_fragment_pairs
         self.fragments = fragments
+        # (id of a cached field map, fragment name, mutually exclusive)
+        self.compared_fields_and_fragments = (
+            set()
+        )  # type: Set[Tuple[int, str, bool]]
 
 
 def _permutations(lst: Sequence[T]) -> Iterator[Tuple[T, T]]:
@@ -409,6 +413,16 @@ def _conflicts_between_fields_and_fragment(
         return
 
     compared_fragments.add(fragment_name)
+
+    # A collection of fields and a fragment are compared only once. Field maps
+    # are cached per selection set, so their identity is stable. Without this
+    # a fragment spread inside its own nested fields (`fragment F on T
+    # { f { ...F f { ...F } } }`) is compared with the same fields for ever.
+    cache_key = (id(field_map), fragment_name, mutually_exclusive)
+    if cache_key in ctx.compared_fields_and_fragments:
+        return
+    ctx.compared_fields_and_fragments.add(cache_key)
+
     fragment_def = ctx.fragments.get(fragment_name)
     if not fragment_def:
         return
